@@ -160,6 +160,10 @@ func nEntries(r *rand.Rand) int {
 
 func genLoki(r *rand.Rand, c *Case, pb bool) {
 	c.Class = "small"
+	if !pb && r.Intn(6) == 0 {
+		c.Split = true
+		flag(c, "split-members")
+	}
 	ns := 1 + r.Intn(4)
 	if r.Intn(20) == 0 {
 		ns = 0
@@ -190,6 +194,9 @@ func genLokiBig(r *rand.Rand, c *Case, kind int) {
 	if kind == 0 {
 		c.Class = "big-lines"
 		want := thresholdBytes + thresholdBytes/4 + r.Intn(thresholdBytes)
+		if os.Getenv("C03_TIER") == "thorough" && r.Intn(3) == 0 {
+			want = 4*thresholdBytes + r.Intn(2*thresholdBytes) // 5 MiB class
+		}
 		for i := 0; total < want; i++ {
 			s := LStream{Labels: []KV{{"app", Str(fmt.Sprintf("big%d", i))}, {"job", "j"}}}
 			ne := 1 + r.Intn(3)
@@ -475,6 +482,9 @@ func gen(r *rand.Rand, i int) Case {
 	c := Case{ID: i, WSeed: r.Int63()}
 	if r.Intn(25) == 0 {
 		c.CtxTTL = uint16(1 + r.Intn(90))
+	}
+	if r.Intn(3) == 0 {
+		c.Cache = "set"
 	}
 	switch {
 	case i%200 == 3:
